@@ -86,7 +86,7 @@ SILENT_EDITS = [   # behaviour-preserving, all exit 0
 
 
 def run(ctx):
-    from ..rules import parlists, sC31
+    from ..rules import parlists, sC31, s4C31
     sym = sC31.Sym(ctx)
     # sC31.rule_nullpath(ctx): armed after the repair 0d41e88f0 (it reported __Pyx__MatchCase_ClassPositional of the unmodified tree, see FINDING_1)
     # sC31.rule_asbind(ctx, sym): armed after the repair 423ab91e8 (`case 1.0 as x` binds the literal instead of the subject, see FINDING_3)
@@ -94,4 +94,5 @@ def run(ctx):
             pC31.rule_forwarders(ctx), pC31.rule_sections(ctx), pC31.rule_cfa(ctx), parlists.rule_par(ctx), sC31.rule_nullpath(ctx), sC31.rule_asbind(ctx, sym),
             sC31.rule_sentinel(ctx), sC31.rule_unchecked(ctx), sC31.rule_absent(ctx, sym), sC31.rule_cover(ctx), sC31.rule_capacity(ctx), sC31.rule_valid(ctx, sym),
             sC31.rule_tpflags(ctx, sym), sC31.rule_pair(ctx, sym), sC31.rule_altnum(ctx, sym), sC31.rule_seq(ctx, sym), sC31.rule_valop(ctx, sym),
-            sC31.rule_refactor(ctx, sym), sC31.rule_exit(ctx, sym), sC31.rule_none(ctx, sym), sC31.rule_dictonly(ctx, sym), sC31.rule_slice(ctx), sC31.rule_once(ctx, sym), sC31.rule_setuse(ctx), sC31.rule_cfg(ctx), sC31.rule_tristate(ctx), sC31.rule_parse(ctx)]
+            sC31.rule_refactor(ctx, sym), sC31.rule_exit(ctx, sym), sC31.rule_none(ctx, sym), sC31.rule_dictonly(ctx, sym), sC31.rule_slice(ctx), sC31.rule_once(ctx, sym), sC31.rule_setuse(ctx), sC31.rule_cfg(ctx), sC31.rule_tristate(ctx), sC31.rule_parse(ctx),
+            s4C31.rule_probe(ctx, sym), s4C31.rule_exact(ctx)]
